@@ -82,9 +82,10 @@ type Opts struct {
 	CloneWithoutKeys bool // all files copied, no private keys: AA/CA answered with a random other key
 	WithholdDG14     bool // DG14 listed in the SOD but not stored
 	WithholdDG15     bool
-	DowngradeCA      bool // EF.CardAccess advertises a PACEInfo that DG14 does not contain
-	DowngradePos     int  // where the foreign entry goes: 0 first, 1 last, 2 after the first genuine entry
-	DowngradeKind    int  // 0 weaker PACE suite on another parameter id, 1 unknown OID, 2 the genuine suite on another parameter id
+	WithholdSW       uint16 // status the chip gives for SELECT of a withheld DG14/DG15 (0 = 6A82 "file not found")
+	DowngradeCA      bool   // EF.CardAccess advertises a PACEInfo that DG14 does not contain
+	DowngradePos     int    // where the foreign entry goes: 0 first, 1 last, 2 after the first genuine entry
+	DowngradeKind    int    // 0 weaker PACE suite on another parameter id, 1 unknown OID, 2 the genuine suite on another parameter id
 	NoCardSecurity   bool
 
 	// CAMKeys arranges the Chip Authentication keys of EF.CardSecurity on PACE-CAM chips (all genuine):
@@ -517,6 +518,15 @@ func Build(o Opts) (*Persona, error) {
 	dfFiles[chipsim.FidCOM] = com.Bytes
 	p.Files["COM"], p.Files["SOD"] = com.Bytes, sod
 	cfg.MF, cfg.DF = mf, dfFiles
+	if o.WithholdSW != 0 {
+		cfg.AbsentSW = map[uint16]uint16{}
+		if o.WithholdDG14 {
+			cfg.AbsentSW[0x010E] = o.WithholdSW
+		}
+		if o.WithholdDG15 {
+			cfg.AbsentSW[0x010F] = o.WithholdSW
+		}
+	}
 	if o.ChunkMod > 0 {
 		m := o.ChunkMod
 		// the 4-byte header read is always answered in full (a chip that splits it is
